@@ -9,7 +9,7 @@
 (* indices, so that TLC's workers share the file.  The driver checks that  *)
 (* the number of distinct states equals the number of records.             *)
 (***************************************************************************)
-EXTENDS Rel, Json, IOUtils
+EXTENDS OpenCode, Json, IOUtils
 
 CONSTANTS W,      \* number of chains
           PROP    \* property id, e.g. "C02"
@@ -65,6 +65,8 @@ Clauses(r) ==
     [] PROP = "C08" ->
          << <<"C08_extent_type", C08_extent_type(r)>>, <<"C08_int_value", C08_int_value(r)>>,
             <<"C08_float_value", C08_float_value(r)>> >>
+    [] PROP = "C11" ->
+         << <<"C11_tokens", C11_tokens(r)>>, <<"C11_errors", C11_errors(r)>> >>
     [] OTHER -> <<>>
 
 \* relational properties: the record is a tuple of results
